@@ -65,10 +65,12 @@ func Shutdown() (err error) {
 	controllersLock.RLock()
 	defer controllersLock.RUnlock()
 
+	// Shut down all storages, even if one of them fails,
+	// and report the first error.
 	for _, c := range controllers {
-		err = c.Shutdown()
-		if err != nil {
-			return
+		shutdownErr := c.Shutdown()
+		if shutdownErr != nil && err == nil {
+			err = shutdownErr
 		}
 	}
 	return
